@@ -61,6 +61,15 @@ fn check_retain(st: &mut Stats, env: &BDDEnv<usize>, uni: &[usize], f: &(D, Tt),
             st.violate("c20.walker", format!("C20:{}:not-ordered-reduced", fname), format!("{} in retain({}, {}) = {}", m, short(&f.0), fname, short(&r)), case());
         } else {
             st.add("nodes_walked", crate::conv::count_nodes(&r));
+            // reduced also at node level: no two nodes of the result with the same structure at
+            // different addresses (judged when the operand itself has none)
+            if crate::conv::structural_twins(&f.0) == 0 {
+                let twins = crate::conv::structural_twins(&r);
+                st.bump("results_checked_for_twin_nodes");
+                if twins > 0 {
+                    st.violate("c20.walker", format!("C20:{}:twin-nodes", fname), format!("retain({}, {}) = {} contains {} node(s) that duplicate another node of the result at a different address", short(&f.0), fname, short(&r), twins), case());
+                }
+            }
         }
         if let Some(bad) = labels_of(&r).iter().find(|l| !support.contains(l)) {
             st.violate("c20.support", format!("C20:{}:variable-outside-support", fname), format!("retain({}, {}) = {} mentions {} which f does not depend on", short(&f.0), fname, short(&r), bad), case());
